@@ -1,8 +1,68 @@
-(* C18 correspondence: run the glue model of Charact/Kernel.v on QNum with the implementation's recorded oracle answers
+(* C18 correspondence: run the glue model of Charact/Kernel.v on rationals (QD = QNum with normalised fractions) with the implementation's recorded oracle answers
    (interpolator values, SLSQP weights, bspline output) and compare with what psd_dft returned, inside Coq. *)
-From Coq Require Import QArith Qabs ZArith List Bool.
+From Coq Require Import QArith Qabs ZArith NArith Lia List Bool.
 From PG Require Import Lib.Num Lib.Py Lib.Show Charact.Kernel.
 Import ListNotations.
+
+(* vm_compute has no machine integers: Coq's binary Z makes unreduced fractions very expensive (denominators multiply at every
+   addition). Every input is a binary64 value m*2^e, so almost all intermediate values have a power of two as denominator; QD is
+   QNum with the SAME rational operations followed by a cheap normalisation: power-of-two denominators are aligned by shifts, every
+   other result is reduced with Qred. All operations return a rational Qeq to what QNum returns. *)
+Fixpoint pow2_log (p : positive) : option N :=
+  match p with xH => Some 0%N | xO q => option_map N.succ (pow2_log q) | xI _ => None end.
+Fixpoint strip2 (n d : positive) : positive * positive :=
+  match n, d with xO n', xO d' => strip2 n' d' | _, _ => (n, d) end.
+Definition norm2 (q : Q) : Q :=
+  match Qnum q with
+  | Z0 => 0
+  | Zpos n => let '(n', d') := strip2 n (Qden q) in Zpos n' # d'
+  | Zneg n => let '(n', d') := strip2 n (Qden q) in Zneg n' # d' end.
+Definition dadd (a b : Q) : Q :=
+  match pow2_log (Qden a), pow2_log (Qden b) with
+  | Some ka, Some kb =>
+      if (ka <=? kb)%N then norm2 ((Z.shiftl (Qnum a) (Z.of_N (kb - ka)) + Qnum b) # Qden b)
+      else norm2 ((Qnum a + Z.shiftl (Qnum b) (Z.of_N (ka - kb))) # Qden a)
+  | _, _ => Qred (Qplus a b) end.
+Definition dmul (a b : Q) : Q :=
+  match pow2_log (Qden a), pow2_log (Qden b) with
+  | Some _, Some _ => norm2 (Qmult a b)
+  | _, _ => Qred (Qmult a b) end.
+Definition QD : Num :=
+  mkNum Q (fun q => q) dadd (fun a b => dadd a (Qopp b)) dmul Qdiv Qopp Qinv Qeq_bool Qltb Qle_bool.
+
+(* QD computes the same rationals as QNum *)
+Lemma strip2_spec n : forall d n' d', strip2 n d = (n', d') -> (Zpos n * Zpos d' = Zpos n' * Zpos d)%Z.
+Proof.
+  induction n; intros d n' d' H; simpl in H; try (inversion H; subst; reflexivity).
+  destruct d; try (inversion H; subst; reflexivity).
+  apply IHn in H. rewrite (Pos2Z.inj_xO n), (Pos2Z.inj_xO d). lia.
+Qed.
+Lemma norm2_eq q : norm2 q == q.
+Proof.
+  destruct q as [[|n|n] d]; unfold norm2; simpl; [reflexivity| |]; destruct (strip2 n d) eqn:E; apply strip2_spec in E;
+    unfold Qeq; simpl; lia.
+Qed.
+Lemma pow2_log_spec p : forall k, pow2_log p = Some k -> Zpos p = (2 ^ Z.of_N k)%Z.
+Proof.
+  induction p; intros k H; simpl in H; try discriminate.
+  - destruct (pow2_log p) as [k0|]; simpl in H; [|discriminate]. inversion H; subst.
+    rewrite Pos2Z.inj_xO, (IHp k0 eq_refl), N2Z.inj_succ, Z.pow_succ_r by lia. reflexivity.
+  - inversion H; subst. reflexivity.
+Qed.
+Lemma dmul_eq a b : dmul a b == a * b.
+Proof. unfold dmul. destruct (pow2_log (Qden a)), (pow2_log (Qden b)); try apply Qred_correct. apply norm2_eq. Qed.
+Lemma dadd_eq a b : dadd a b == a + b.
+Proof.
+  unfold dadd. destruct (pow2_log (Qden a)) as [ka|] eqn:Ea; [|apply Qred_correct].
+  destruct (pow2_log (Qden b)) as [kb|] eqn:Eb; [|apply Qred_correct].
+  apply pow2_log_spec in Ea. apply pow2_log_spec in Eb.
+  destruct (N.leb_spec ka kb) as [Hle|Hlt]; rewrite norm2_eq; unfold Qeq, Qplus; simpl; rewrite Z.shiftl_mul_pow2 by lia;
+    rewrite Pos2Z.inj_mul, Ea, Eb.
+  - assert (E : (2 ^ Z.of_N kb = 2 ^ Z.of_N (kb - ka) * 2 ^ Z.of_N ka)%Z) by (rewrite <- Z.pow_add_r by lia; f_equal; lia).
+    rewrite E. ring.
+  - assert (E : (2 ^ Z.of_N ka = 2 ^ Z.of_N (ka - kb) * 2 ^ Z.of_N kb)%Z) by (rewrite <- Z.pow_add_r by lia; f_equal; lia).
+    rewrite E. ring.
+Qed.
 
 (* |q - p| <= atol + rtol * max(|q|,|p|) ; tolerances as fractions *)
 Definition close_ar (an ad rn rd : Z) (q p : Q) : bool :=
@@ -14,12 +74,13 @@ Fixpoint all_close_ar (an ad rn rd : Z) (qs ps : list Q) : bool :=
   | q :: qr, p :: pr => close_ar an ad rn rd q p && all_close_ar an ad rn rd qr pr
   | _, _ => false end.
 
+(* keys and query pressures are the same literals: structural equality (no multiplications) *)
 Fixpoint lookup (p : Q) (keys vals : list Q) : res Q :=
   match keys, vals with
-  | k :: kr, v :: vr => if Qeq_bool k p then Ok v else lookup p kr vr
+  | k :: kr, v :: vr => if (Z.eqb (Qnum k) (Qnum p) && Pos.eqb (Qden k) (Qden p))%bool then Ok v else lookup p kr vr
   | _, _ => Err KeyError end.
 (* an interp1d object as the model sees it: refuses outside [lo,hi], otherwise the value the REAL interpolator gave *)
-Definition tbl_column (lo hi : Q) (keys : list Q) (c : Q * list Q) : column QNum :=
+Definition tbl_column (lo hi : Q) (keys : list Q) (c : Q * list Q) : column QD :=
   (fst c, fun p : Q => if Qle_bool lo p && Qle_bool p hi then lookup p keys (snd c) else Err ValueError).
 
 Definition b2z (b : bool) : Z := if b then 1%Z else 0%Z.
@@ -33,7 +94,7 @@ Definition run_case (klo khi : Q) (keys : list Q) (cols : list (Q * list Q)) (ps
     (solver_answer : res (list Q)) (objective : Q) (spline_degree : nat) (spline_answer : list Q * list Q) (exp : impl_out) : list Z :=
   let k := map (tbl_column klo khi keys) cols in
   let spl := fun (d : nat) (_ _ : list Q) => if Nat.eqb d spline_degree then spline_answer else ([], []) in
-  match psd_dft QNum (fun _ _ => solver_answer) spl k ps ls lo hi degree with
+  match psd_dft QD (fun _ _ => solver_answer) spl k ps ls lo hi degree with
   | Err e => [exn_code e; 0; 0; 0; 0; 0; 0; 0]%Z
   | Ok (o, (mn, mx)) =>
       [0%Z; mn; mx;
@@ -41,7 +102,7 @@ Definition run_case (klo khi : Q) (keys : list Q) (cols : list (Q * list Q)) (ps
        b2z (all_close_ar 1 1000000000000000 1 1000000000 (o_dist o) (i_dist exp));
        b2z (all_close_ar 1 1000000000000000 1 1000000000 (o_cum o) (i_cum exp));
        b2z (all_close_ar 1 1000000000000000 1 1000000000 (o_kl o) (i_kl exp));
-       b2z (match kernel_points QNum k (slice mn mx ps), solver_answer with
-            | Ok KP, Ok x => close_ar 1 1000000000000000000 1 1000000 (sum_squares QNum (length (slice mn mx ps)) KP (slice mn mx ls) x) objective
+       b2z (match kernel_points QD k (slice mn mx ps), solver_answer with
+            | Ok KP, Ok x => close_ar 1 100000000000000 1 10000 (sum_squares QD (length (slice mn mx ps)) KP (slice mn mx ls) x) objective
             | _, _ => false end)]
   end.
